@@ -138,7 +138,7 @@ func c14Scope(p *Program) []*ssa.Function {
 func runC14(r *Run, verifDir string) {
 
 	r.Explain = append(r.Explain,
-		"C14 is decided for its structural clauses: G1 (clause b for repository code) in every accessor of the managed objects and of the Get response, each dereference of a pointer loaded from an optional part of a decoded object (key value, plain key value, key material alternatives, the optional big integers of a transparent RSA key) is dominated by a nil test on the same access path; G2 the key-format tables agree: the field KeyMaterial.decode fills for a format is the field every accessor reads for that format and the field every register builder populates together with that format constant; G3 the register builders choose the EC representation by CompareVersions(client.Version(), V1_3) >= 0 with the 1.3 formats on the true edge; G4 the curve tables of builder and accessors are inverse over the same four curves.")
+		"C14 is decided for its structural clauses: G1 (clause b for repository code) in every accessor of the managed objects and of the Get response, each dereference of a pointer loaded from an optional part of a decoded object (key value, plain key value, key material alternatives, the optional big integers of a transparent RSA key) is dominated by a nil test on the same access path; G2 the key-format tables agree: the field KeyMaterial.decode fills for a format is the field every accessor reads for that format and the field every register builder populates together with that format constant; G3 the register builders choose the EC representation by CompareVersions(client.Version(), V1_3) >= 0 with the 1.3 formats on the true edge; G4 the curve tables of builder and accessors are inverse over the same four curves; G5 a math/big call that panics on the magnitude or sign of its operand (FillBytes, Div, Mod, Quo, Rem, Sqrt, SetBit) is dominated, inside an accessor, by a BitLen/Cmp/Sign test of that operand.")
 	r.Assume = append(r.Assume, "the decoder leaves a pointer field nil exactly when the element is absent (C01)", "path-insensitive dominance: a nil test must dominate the dereference on the same access path")
 	r.NotCov = append(r.NotCov, "mathematical equality of extracted keys (big-integer bytes, DER marshalling, curve arithmetic): value level", "panics inside crypto/x509 and math/big on malformed but non-nil material")
 	c14G1(r)
@@ -147,6 +147,7 @@ func runC14(r *Run, verifDir string) {
 	c14G2Builders(r, tbl)
 	c14G3(r)
 	c14G4(r)
+	c14G5(r)
 }
 
 // ---------------------------------------------------------------- G1
@@ -772,4 +773,97 @@ func curveCasesBitlen(fn *ssa.Function) map[int64]int64 {
 		}
 	}
 	return out
+}
+
+// ---------------------------------------------------------------- G5
+
+// c14PanicCallees: standard-library calls that panic on a value-dependent condition of their operands. Inside an
+// accessor the operands come from the server, so each call needs a dominating test that mentions the size/sign of
+// the operand (a call of BitLen, Cmp, CmpAbs, Sign or len(x.Bytes()) on the same access path).
+var c14PanicCallees = map[string]struct {
+	operand int // index in Call.Args (receiver = 0) of the value whose magnitude decides the panic
+	why     string
+}{
+	"math/big.Int.FillBytes": {0, "panics when the value does not fit the buffer"},
+	"math/big.Int.Div":       {2, "panics on a zero divisor"},
+	"math/big.Int.Mod":       {2, "panics on a zero divisor"},
+	"math/big.Int.Quo":       {2, "panics on a zero divisor"},
+	"math/big.Int.Rem":       {2, "panics on a zero divisor"},
+	"math/big.Int.DivMod":    {2, "panics on a zero divisor"},
+	"math/big.Int.QuoRem":    {2, "panics on a zero divisor"},
+	"math/big.Int.Sqrt":      {1, "panics on a negative operand"},
+	"math/big.Int.SetBit":    {1, "panics on a negative operand"},
+}
+
+func c14G5(r *Run) {
+	r.Rule("C14.G5", "accessors: a standard-library call that panics on the magnitude of a server-supplied big integer (FillBytes, Div/Mod/Quo/Rem, Sqrt) is dominated by a size/sign test on that operand", 0)
+	sizeProbe := map[string]bool{"BitLen": true, "Cmp": true, "CmpAbs": true, "Sign": true, "Bytes": true, "IsInt64": true, "IsUint64": true}
+	n := 0
+	for _, fn := range c14Scope(r.P) {
+		ord := map[string]int{}
+		allInstrs(fn, func(in ssa.Instruction) {
+			c, ok := in.(*ssa.Call)
+			if !ok {
+				return
+			}
+			sc := c.Call.StaticCallee()
+			if sc == nil {
+				return
+			}
+			id := idOf(sc)
+			ent, ok := c14PanicCallees[id.pkg+"."+id.recv+"."+id.name]
+			if !ok || ent.operand >= len(c.Call.Args) {
+				return
+			}
+			n++
+			opnd := c.Call.Args[ent.operand]
+			k := fmt.Sprintf("%s/%s.%s", fnKey(fn), id.recv, id.name)
+			ord[k]++
+			key := fmt.Sprintf("%s#%d", k, ord[k])
+			guarded := false
+			for _, dc := range dominatingConds(in.Block()) {
+				// the condition (transitively through arithmetic/len/comparison) contains a probe call on the operand
+				var has func(v ssa.Value, d int) bool
+				has = func(v ssa.Value, d int) bool {
+					if d > 6 || v == nil {
+						return false
+					}
+					switch x := v.(type) {
+					case *ssa.BinOp:
+						return has(x.X, d+1) || has(x.Y, d+1)
+					case *ssa.UnOp:
+						return has(x.X, d+1)
+					case *ssa.Convert:
+						return has(x.X, d+1)
+					case *ssa.Call:
+						if pc := x.Call.StaticCallee(); pc != nil && len(x.Call.Args) > 0 {
+							pid := idOf(pc)
+							if pid.pkg == "math/big" && sizeProbe[pid.name] {
+								for _, a := range x.Call.Args {
+									if sameSlice(stripPtrConv(a), stripPtrConv(opnd)) {
+										return true
+									}
+								}
+							}
+						}
+						if b, ok := x.Call.Value.(*ssa.Builtin); ok && b.Name() == "len" {
+							return has(x.Call.Args[0], d+1)
+						}
+					}
+					return false
+				}
+				if has(dc.cond, 0) {
+					guarded = true
+				}
+			}
+			if guarded {
+				r.OK("C14.G5", key, in.Pos(), "%s.%s under a dominating size/sign test of its operand", id.recv, id.name)
+			} else {
+				r.Bad("C14.G5", key, in.Pos(), "%s calls big.%s.%s, which %s, on key material without a dominating BitLen/Cmp/Sign test of that operand: a key of a size the code did not foresee (P-521 scalars need 66 bytes, a hostile value is larger than the curve order) makes the accessor panic instead of returning the key or an error", fnKey(fn), id.recv, id.name, ent.why)
+			}
+		})
+	}
+	if n == 0 {
+		r.Trivial("C14.G5", "accessors/no-magnitude-panic-calls", token.NoPos, "no accessor calls a magnitude-sensitive math/big routine (FillBytes, Div, Mod, Quo, Rem, DivMod, QuoRem, Sqrt, SetBit)")
+	}
 }
